@@ -3,3 +3,6 @@ package block
 // events per channel: quick 2, thorough 3; DA heights of the blobs: quick fixed (5,9,6,8 above scan position 3), thorough arbitrary
 var zzC02Len = 2
 var zzC02SymbolicDA = false
+
+// clean_restart: are the parts delivered before the stop offered again after it (quick: no; thorough: either)
+var zzC02Redeliver = false
